@@ -34,72 +34,72 @@ macro_rules! step_harness {
     };
 }
 step_harness!(c12_q_empty_add_cnt, 6, 0, true, false, []);
-step_harness!(c12_q_empty_add_it, 6, 0, false, true, []);
-step_harness!(c12_q_empty_rmarg_cnt, 6, 1, true, false, []);
+step_harness!(c12_t_empty_add_it, 6, 0, false, true, []);
+step_harness!(c12_t_empty_rmarg_cnt, 6, 1, true, false, []);
 step_harness!(c12_t_empty_rmarg_it, 6, 1, false, true, []);
-step_harness!(c12_q_empty_att_cnt, 6, 2, true, false, []);
-step_harness!(c12_q_empty_rmatt_cnt, 6, 3, true, false, []);
+step_harness!(c12_t_empty_att_cnt, 6, 2, true, false, []);
+step_harness!(c12_t_empty_rmatt_cnt, 6, 3, true, false, []);
 step_harness!(c12_t_empty_rmatt_it, 6, 3, false, true, []);
-step_harness!(c12_q_a_add_cnt, 6, 0, true, false, [(0, 0, 0)]);
-step_harness!(c12_q_a_add_it, 6, 0, false, true, [(0, 0, 0)]);
+step_harness!(c12_t_a_add_cnt, 6, 0, true, false, [(0, 0, 0)]);
+step_harness!(c12_t_a_add_it, 6, 0, false, true, [(0, 0, 0)]);
 step_harness!(c12_q_a_rmarg_cnt, 6, 1, true, false, [(0, 0, 0)]);
 step_harness!(c12_t_a_rmarg_it, 6, 1, false, true, [(0, 0, 0)]);
-step_harness!(c12_q_a_att_cnt, 6, 2, true, false, [(0, 0, 0)]);
-step_harness!(c12_q_a_rmatt_cnt, 6, 3, true, false, [(0, 0, 0)]);
+step_harness!(c12_t_a_att_cnt, 6, 2, true, false, [(0, 0, 0)]);
+step_harness!(c12_t_a_rmatt_cnt, 6, 3, true, false, [(0, 0, 0)]);
 step_harness!(c12_t_a_rmatt_it, 6, 3, false, true, [(0, 0, 0)]);
-step_harness!(c12_q_ab_add_cnt, 7, 0, true, false, [(0, 0, 0), (0, 1, 0)]);
-step_harness!(c12_q_ab_add_it, 7, 0, false, true, [(0, 0, 0), (0, 1, 0)]);
-step_harness!(c12_q_ab_rmarg_cnt, 7, 1, true, false, [(0, 0, 0), (0, 1, 0)]);
+step_harness!(c12_t_ab_add_cnt, 7, 0, true, false, [(0, 0, 0), (0, 1, 0)]);
+step_harness!(c12_t_ab_add_it, 7, 0, false, true, [(0, 0, 0), (0, 1, 0)]);
+step_harness!(c12_t_ab_rmarg_cnt, 7, 1, true, false, [(0, 0, 0), (0, 1, 0)]);
 step_harness!(c12_t_ab_rmarg_it, 7, 1, false, true, [(0, 0, 0), (0, 1, 0)]);
 step_harness!(c12_q_ab_att_cnt, 7, 2, true, false, [(0, 0, 0), (0, 1, 0)]);
-step_harness!(c12_q_ab_rmatt_cnt, 7, 3, true, false, [(0, 0, 0), (0, 1, 0)]);
+step_harness!(c12_t_ab_rmatt_cnt, 7, 3, true, false, [(0, 0, 0), (0, 1, 0)]);
 step_harness!(c12_t_ab_rmatt_it, 7, 3, false, true, [(0, 0, 0), (0, 1, 0)]);
 step_harness!(c12_q_a2b_add_cnt, 7, 0, true, false, [(0, 0, 0), (0, 1, 0), (2, 0, 1)]);
-step_harness!(c12_q_a2b_add_it, 7, 0, false, true, [(0, 0, 0), (0, 1, 0), (2, 0, 1)]);
+step_harness!(c12_t_a2b_add_it, 7, 0, false, true, [(0, 0, 0), (0, 1, 0), (2, 0, 1)]);
 step_harness!(c12_q_a2b_rmarg_cnt, 7, 1, true, false, [(0, 0, 0), (0, 1, 0), (2, 0, 1)]);
 step_harness!(c12_t_a2b_rmarg_it, 7, 1, false, true, [(0, 0, 0), (0, 1, 0), (2, 0, 1)]);
 step_harness!(c12_q_a2b_att_cnt, 7, 2, true, false, [(0, 0, 0), (0, 1, 0), (2, 0, 1)]);
 step_harness!(c12_q_a2b_rmatt_cnt, 7, 3, true, false, [(0, 0, 0), (0, 1, 0), (2, 0, 1)]);
 step_harness!(c12_t_a2b_rmatt_it, 7, 3, false, true, [(0, 0, 0), (0, 1, 0), (2, 0, 1)]);
-step_harness!(c12_q_full_add_cnt, 8, 0, true, false, [(0, 0, 0), (0, 1, 0), (2, 0, 1), (2, 1, 0), (2, 0, 0)]);
-step_harness!(c12_q_full_add_it, 8, 0, false, true, [(0, 0, 0), (0, 1, 0), (2, 0, 1), (2, 1, 0), (2, 0, 0)]);
+step_harness!(c12_t_full_add_cnt, 8, 0, true, false, [(0, 0, 0), (0, 1, 0), (2, 0, 1), (2, 1, 0), (2, 0, 0)]);
+step_harness!(c12_t_full_add_it, 8, 0, false, true, [(0, 0, 0), (0, 1, 0), (2, 0, 1), (2, 1, 0), (2, 0, 0)]);
 step_harness!(c12_q_full_rmarg_cnt, 8, 1, true, false, [(0, 0, 0), (0, 1, 0), (2, 0, 1), (2, 1, 0), (2, 0, 0)]);
 step_harness!(c12_x_full_rmarg_it, 8, 1, false, true, [(0, 0, 0), (0, 1, 0), (2, 0, 1), (2, 1, 0), (2, 0, 0)]);
-step_harness!(c12_q_full_att_cnt, 8, 2, true, false, [(0, 0, 0), (0, 1, 0), (2, 0, 1), (2, 1, 0), (2, 0, 0)]);
+step_harness!(c12_t_full_att_cnt, 8, 2, true, false, [(0, 0, 0), (0, 1, 0), (2, 0, 1), (2, 1, 0), (2, 0, 0)]);
 step_harness!(c12_q_full_rmatt_cnt, 8, 3, true, false, [(0, 0, 0), (0, 1, 0), (2, 0, 1), (2, 1, 0), (2, 0, 0)]);
 step_harness!(c12_x_full_rmatt_it, 8, 3, false, true, [(0, 0, 0), (0, 1, 0), (2, 0, 1), (2, 1, 0), (2, 0, 0)]);
-step_harness!(c12_q_tomb_attacker_add_cnt, 8, 0, true, false, [(0, 0, 0), (0, 1, 0), (2, 0, 1), (1, 0, 0)]);
-step_harness!(c12_q_tomb_attacker_add_it, 8, 0, false, true, [(0, 0, 0), (0, 1, 0), (2, 0, 1), (1, 0, 0)]);
+step_harness!(c12_t_tomb_attacker_add_cnt, 8, 0, true, false, [(0, 0, 0), (0, 1, 0), (2, 0, 1), (1, 0, 0)]);
+step_harness!(c12_t_tomb_attacker_add_it, 8, 0, false, true, [(0, 0, 0), (0, 1, 0), (2, 0, 1), (1, 0, 0)]);
 step_harness!(c12_q_tomb_attacker_rmarg_cnt, 8, 1, true, false, [(0, 0, 0), (0, 1, 0), (2, 0, 1), (1, 0, 0)]);
 step_harness!(c12_x_tomb_attacker_rmarg_it, 8, 1, false, true, [(0, 0, 0), (0, 1, 0), (2, 0, 1), (1, 0, 0)]);
 step_harness!(c12_q_tomb_attacker_att_cnt, 8, 2, true, false, [(0, 0, 0), (0, 1, 0), (2, 0, 1), (1, 0, 0)]);
-step_harness!(c12_q_tomb_attacker_rmatt_cnt, 8, 3, true, false, [(0, 0, 0), (0, 1, 0), (2, 0, 1), (1, 0, 0)]);
+step_harness!(c12_t_tomb_attacker_rmatt_cnt, 8, 3, true, false, [(0, 0, 0), (0, 1, 0), (2, 0, 1), (1, 0, 0)]);
 step_harness!(c12_x_tomb_attacker_rmatt_it, 8, 3, false, true, [(0, 0, 0), (0, 1, 0), (2, 0, 1), (1, 0, 0)]);
 step_harness!(c12_q_tomb_target_add_cnt, 8, 0, true, false, [(0, 0, 0), (0, 1, 0), (2, 0, 1), (1, 1, 0)]);
-step_harness!(c12_q_tomb_target_add_it, 8, 0, false, true, [(0, 0, 0), (0, 1, 0), (2, 0, 1), (1, 1, 0)]);
+step_harness!(c12_t_tomb_target_add_it, 8, 0, false, true, [(0, 0, 0), (0, 1, 0), (2, 0, 1), (1, 1, 0)]);
 step_harness!(c12_q_tomb_target_rmarg_cnt, 8, 1, true, false, [(0, 0, 0), (0, 1, 0), (2, 0, 1), (1, 1, 0)]);
 step_harness!(c12_t_tomb_target_rmarg_it, 8, 1, false, true, [(0, 0, 0), (0, 1, 0), (2, 0, 1), (1, 1, 0)]);
-step_harness!(c12_q_tomb_target_att_cnt, 8, 2, true, false, [(0, 0, 0), (0, 1, 0), (2, 0, 1), (1, 1, 0)]);
-step_harness!(c12_q_tomb_target_rmatt_cnt, 8, 3, true, false, [(0, 0, 0), (0, 1, 0), (2, 0, 1), (1, 1, 0)]);
+step_harness!(c12_t_tomb_target_att_cnt, 8, 2, true, false, [(0, 0, 0), (0, 1, 0), (2, 0, 1), (1, 1, 0)]);
+step_harness!(c12_t_tomb_target_rmatt_cnt, 8, 3, true, false, [(0, 0, 0), (0, 1, 0), (2, 0, 1), (1, 1, 0)]);
 step_harness!(c12_t_tomb_target_rmatt_it, 8, 3, false, true, [(0, 0, 0), (0, 1, 0), (2, 0, 1), (1, 1, 0)]);
-step_harness!(c12_q_readded_add_cnt, 9, 0, true, false, [(0, 0, 0), (0, 1, 0), (2, 0, 1), (1, 1, 0), (0, 1, 0), (2, 1, 1)]);
-step_harness!(c12_q_readded_add_it, 9, 0, false, true, [(0, 0, 0), (0, 1, 0), (2, 0, 1), (1, 1, 0), (0, 1, 0), (2, 1, 1)]);
-step_harness!(c12_q_readded_rmarg_cnt, 9, 1, true, false, [(0, 0, 0), (0, 1, 0), (2, 0, 1), (1, 1, 0), (0, 1, 0), (2, 1, 1)]);
+step_harness!(c12_t_readded_add_cnt, 9, 0, true, false, [(0, 0, 0), (0, 1, 0), (2, 0, 1), (1, 1, 0), (0, 1, 0), (2, 1, 1)]);
+step_harness!(c12_t_readded_add_it, 9, 0, false, true, [(0, 0, 0), (0, 1, 0), (2, 0, 1), (1, 1, 0), (0, 1, 0), (2, 1, 1)]);
+step_harness!(c12_t_readded_rmarg_cnt, 9, 1, true, false, [(0, 0, 0), (0, 1, 0), (2, 0, 1), (1, 1, 0), (0, 1, 0), (2, 1, 1)]);
 step_harness!(c12_x_readded_rmarg_it, 9, 1, false, true, [(0, 0, 0), (0, 1, 0), (2, 0, 1), (1, 1, 0), (0, 1, 0), (2, 1, 1)]);
-step_harness!(c12_q_readded_att_cnt, 9, 2, true, false, [(0, 0, 0), (0, 1, 0), (2, 0, 1), (1, 1, 0), (0, 1, 0), (2, 1, 1)]);
+step_harness!(c12_t_readded_att_cnt, 9, 2, true, false, [(0, 0, 0), (0, 1, 0), (2, 0, 1), (1, 1, 0), (0, 1, 0), (2, 1, 1)]);
 step_harness!(c12_q_readded_rmatt_cnt, 9, 3, true, false, [(0, 0, 0), (0, 1, 0), (2, 0, 1), (1, 1, 0), (0, 1, 0), (2, 1, 1)]);
 step_harness!(c12_x_readded_rmatt_it, 9, 3, false, true, [(0, 0, 0), (0, 1, 0), (2, 0, 1), (1, 1, 0), (0, 1, 0), (2, 1, 1)]);
-step_harness!(c12_q_detached_add_cnt, 8, 0, true, false, [(0, 0, 0), (0, 1, 0), (2, 0, 1), (2, 1, 0), (3, 0, 1)]);
-step_harness!(c12_q_detached_add_it, 8, 0, false, true, [(0, 0, 0), (0, 1, 0), (2, 0, 1), (2, 1, 0), (3, 0, 1)]);
+step_harness!(c12_t_detached_add_cnt, 8, 0, true, false, [(0, 0, 0), (0, 1, 0), (2, 0, 1), (2, 1, 0), (3, 0, 1)]);
+step_harness!(c12_t_detached_add_it, 8, 0, false, true, [(0, 0, 0), (0, 1, 0), (2, 0, 1), (2, 1, 0), (3, 0, 1)]);
 step_harness!(c12_q_detached_rmarg_cnt, 8, 1, true, false, [(0, 0, 0), (0, 1, 0), (2, 0, 1), (2, 1, 0), (3, 0, 1)]);
 step_harness!(c12_x_detached_rmarg_it, 8, 1, false, true, [(0, 0, 0), (0, 1, 0), (2, 0, 1), (2, 1, 0), (3, 0, 1)]);
-step_harness!(c12_q_detached_att_cnt, 8, 2, true, false, [(0, 0, 0), (0, 1, 0), (2, 0, 1), (2, 1, 0), (3, 0, 1)]);
-step_harness!(c12_q_detached_rmatt_cnt, 8, 3, true, false, [(0, 0, 0), (0, 1, 0), (2, 0, 1), (2, 1, 0), (3, 0, 1)]);
+step_harness!(c12_t_detached_att_cnt, 8, 2, true, false, [(0, 0, 0), (0, 1, 0), (2, 0, 1), (2, 1, 0), (3, 0, 1)]);
+step_harness!(c12_t_detached_rmatt_cnt, 8, 3, true, false, [(0, 0, 0), (0, 1, 0), (2, 0, 1), (2, 1, 0), (3, 0, 1)]);
 step_harness!(c12_x_detached_rmatt_it, 8, 3, false, true, [(0, 0, 0), (0, 1, 0), (2, 0, 1), (2, 1, 0), (3, 0, 1)]);
 step_harness!(c12_q_emptied_add_cnt, 7, 0, true, false, [(0, 0, 0), (1, 0, 0)]);
-step_harness!(c12_q_emptied_add_it, 7, 0, false, true, [(0, 0, 0), (1, 0, 0)]);
-step_harness!(c12_q_emptied_rmarg_cnt, 7, 1, true, false, [(0, 0, 0), (1, 0, 0)]);
+step_harness!(c12_t_emptied_add_it, 7, 0, false, true, [(0, 0, 0), (1, 0, 0)]);
+step_harness!(c12_t_emptied_rmarg_cnt, 7, 1, true, false, [(0, 0, 0), (1, 0, 0)]);
 step_harness!(c12_t_emptied_rmarg_it, 7, 1, false, true, [(0, 0, 0), (1, 0, 0)]);
-step_harness!(c12_q_emptied_att_cnt, 7, 2, true, false, [(0, 0, 0), (1, 0, 0)]);
-step_harness!(c12_q_emptied_rmatt_cnt, 7, 3, true, false, [(0, 0, 0), (1, 0, 0)]);
+step_harness!(c12_t_emptied_att_cnt, 7, 2, true, false, [(0, 0, 0), (1, 0, 0)]);
+step_harness!(c12_t_emptied_rmatt_cnt, 7, 3, true, false, [(0, 0, 0), (1, 0, 0)]);
 step_harness!(c12_t_emptied_rmatt_it, 7, 3, false, true, [(0, 0, 0), (1, 0, 0)]);
